@@ -95,7 +95,7 @@ func runCH(c chCase) (fail string, stats map[string]bool) {
 		}
 	}
 	sr := w.Get(s.open.Sid)
-	cl := hbClient{s}
+	cl := hbClient{s: s}
 	var g *Gates
 	if c.Hold && car != "polling" {
 		g = InstallGates(nil)
